@@ -175,7 +175,7 @@ func RunConc(s *kernel.Sim, prof *Profile, free bool) *Env {
 		if nRestricted > 0 && t.Bool(1, 4) {
 			caller = e.Callers[1]
 		}
-		n := t.Range(2, maxOps)
+		n := t.Range(1, maxOps)
 		for i := 0; i < n; i++ {
 			op := model.Op{Kind: model.OpKind(t.Weighted(w))}
 			if op.Kind != model.OpList {
